@@ -338,8 +338,14 @@ AccessorDrift(o) ==
   IF ~("val" \in DOMAIN o /\ Ok(o.val)) \/ Len(Path5(o)) + Len(Query5(o)) + Len(Netloc5(o)) + Len(Frag5(o)) > 300 THEN {}
   ELSE LET u5 == Five(o) IN {f \in AccessorNames \cap DOMAIN o : o[f] # AccM(f, u5)}
 
+\* human_repr() against Level I (records that carry the printable set: C18)
+HumanAgreement(r) ==
+  IF ~(OutOk(r) /\ Has_(r, "printable") /\ "human_repr" \in DOMAIN r.out.ok /\ Ok(r.out.ok.human_repr)) THEN "n/a"
+  ELSE LET h == HumanRepr(Five(r.out.ok), Range(r.printable)) IN
+       IF IsGray(h) THEN "gray" ELSE IF IsOK(h) /\ h.ok = V(r.out.ok.human_repr) THEN "agree" ELSE "drift"
+
 VARIABLE l
-TInit == l = 1 /\ TLCSet(1, [n |-> 0, applicable |-> 0, agree |-> 0, modelled |-> 0, gray |-> 0, accessors |-> 0, accessor_drift |-> 0])
+TInit == l = 1 /\ TLCSet(1, [n |-> 0, applicable |-> 0, agree |-> 0, modelled |-> 0, gray |-> 0, accessors |-> 0, accessor_drift |-> 0, human_agree |-> 0, human_drift |-> 0])
 TNext ==
   /\ l <= Len(Recs)
   /\ LET r  == Recs[l]
@@ -358,7 +364,10 @@ TNext ==
                          modelled |-> TLCGet(1).modelled + (IF ag \in {"agree", "drift"} THEN 1 ELSE 0),
                          gray |-> TLCGet(1).gray + (IF ag = "gray" THEN 1 ELSE 0),
                          accessors |-> TLCGet(1).accessors + (IF OutOk(r) THEN Cardinality(DOMAIN r.out.ok) ELSE 0),
-                         accessor_drift |-> TLCGet(1).accessor_drift + (IF OutOk(r) THEN Cardinality(AccessorDrift(r.out.ok)) ELSE 0)])
+                         accessor_drift |-> TLCGet(1).accessor_drift + (IF OutOk(r) THEN Cardinality(AccessorDrift(r.out.ok)) ELSE 0),
+                         human_agree |-> TLCGet(1).human_agree + (IF HumanAgreement(r) = "agree" THEN 1 ELSE 0),
+                         human_drift |-> TLCGet(1).human_drift + (IF HumanAgreement(r) = "drift" THEN 1 ELSE 0)])
+           /\ IF HumanAgreement(r) = "drift" THEN PrintT(<<"HDRIFT", r.id>>) ELSE TRUE
            /\ IF OutOk(r) /\ AccessorDrift(r.out.ok) # {} THEN PrintT(<<"ADRIFT", r.id, AccessorDrift(r.out.ok)>>) ELSE TRUE
   /\ l' = l + 1
 Accepted == /\ PrintT(<<"STATS", TLCGet(1)>>)
